@@ -34,6 +34,9 @@ type pendingOp struct {
 	cases      []selCase
 	mch        []*mchan
 	hasDefault bool
+	// blocking operation of a sync primitive (wg-wait, lock, rlock) on obj instead of a channel operation
+	sync string
+	obj  interface{}
 	// result
 	chosen int
 	val    interface{}
@@ -64,7 +67,14 @@ type transition struct {
 	label        string
 }
 
+type muState struct {
+	writer  bool
+	readers int
+}
+
 type Sched struct {
+	wg          map[interface{}]int
+	mu          map[interface{}]*muState
 	x           *Exec
 	threads     []*mthread
 	chans       map[uintptr]*mchan
@@ -82,7 +92,7 @@ type Sched struct {
 }
 
 func NewSched(x *Exec) *Sched {
-	return &Sched{x: x, chans: map[uintptr]*mchan{}, names: map[uintptr]string{}, yield: make(chan struct{}), MaxSteps: 10000}
+	return &Sched{x: x, chans: map[uintptr]*mchan{}, names: map[uintptr]string{}, yield: make(chan struct{}), MaxSteps: 10000, wg: map[interface{}]int{}, mu: map[interface{}]*muState{}}
 }
 
 func (s *Sched) NameChan(ch interface{}, name string) {
@@ -180,6 +190,22 @@ func (s *Sched) enabled() []transition {
 		}
 	}
 	for _, t := range parked {
+		if t.pending.sync != "" {
+			ok := false
+			switch t.pending.sync {
+			case "wg-wait":
+				ok = s.wg[t.pending.obj] <= 0
+			case "lock":
+				m := s.muOf(t.pending.obj)
+				ok = !m.writer && m.readers == 0
+			case "rlock":
+				ok = !s.muOf(t.pending.obj).writer
+			}
+			if ok {
+				out = append(out, transition{kind: "sync", t: t, label: fmt.Sprintf("%s: %s proceeds", t.name, t.pending.sync)})
+			}
+			continue
+		}
 		any := false
 		for ci, c := range t.pending.cases {
 			m := t.pending.mch[ci]
@@ -260,6 +286,35 @@ func (s *Sched) Run() {
 		s.park(op)
 		return verifshim.SelResult{Index: op.chosen, Value: op.val, Ok: op.ok}
 	}
+	verifshim.SyncHook = func(obj interface{}, op string, n int) bool {
+		if s.cur == nil {
+			return false // not one of the scheduler's threads
+		}
+		switch op {
+		case "wg-add":
+			s.wg[obj] += n
+			if s.wg[obj] < 0 {
+				panic("sync: negative WaitGroup counter")
+			}
+		case "unlock":
+			m := s.muOf(obj)
+			if !m.writer {
+				panic("sync: unlock of unlocked mutex")
+			}
+			m.writer = false
+		case "runlock":
+			m := s.muOf(obj)
+			if m.readers <= 0 {
+				panic("sync: RUnlock of unlocked RWMutex")
+			}
+			m.readers--
+		case "wg-wait", "lock", "rlock":
+			s.park(&pendingOp{sync: op, obj: obj})
+		default:
+			return false
+		}
+		return true
+	}
 	verifshim.CloseHook = func(ch interface{}) {
 		m := s.chanOf(ch)
 		if m.closed {
@@ -273,6 +328,7 @@ func (s *Sched) Run() {
 	}
 	defer func() {
 		verifshim.SendHook, verifshim.RecvHook, verifshim.SelectHook, verifshim.CloseHook, verifshim.GoHook = nil, nil, nil, nil, nil
+		verifshim.SyncHook = nil
 	}()
 	// start: run every thread up to its first operation, in id order (initial local steps commute)
 	for i := 0; i < len(s.threads); i++ {
@@ -324,6 +380,14 @@ func (s *Sched) Run() {
 		switch tr.kind {
 		case "arrive":
 			tr.t.arrived = true
+		case "sync":
+			switch tr.t.pending.sync {
+			case "lock":
+				s.muOf(tr.t.pending.obj).writer = true
+			case "rlock":
+				s.muOf(tr.t.pending.obj).readers++
+			}
+			s.runThread(tr.t)
 		case "rendezvous":
 			so, ro := tr.sender.pending, tr.recv.pending
 			so.chosen, so.ok = tr.sCase, true
@@ -358,7 +422,7 @@ func (s *Sched) Run() {
 	}
 	for _, t := range s.threads {
 		if !t.done && t.pending != nil {
-			w := ""
+			w := t.pending.sync
 			for i, c := range t.pending.cases {
 				if i > 0 {
 					w += " | "
@@ -385,3 +449,12 @@ func (s *Sched) Run() {
 
 // Parked lists the unfinished threads and what they wait for (after Run).
 func (s *Sched) ParkedAtEnd() []string { return s.parkedAtEnd }
+
+func (s *Sched) muOf(obj interface{}) *muState {
+	m := s.mu[obj]
+	if m == nil {
+		m = &muState{}
+		s.mu[obj] = m
+	}
+	return m
+}
